@@ -850,6 +850,71 @@ func genFrame(t *rapid.T, c *RtspCase, st *rtpGenState) *Frame {
 	return f
 }
 
+// genSrSandwich draws the history that exercises the receiver-report producer: k RTP packets, a sender report with
+// the track's SSRC (or a foreign one), then 0-3 packets that do NOT advance the highest sequence number (duplicates,
+// late packets) or nothing or new packets, a second sender report, and optionally a third round.  Every packet is
+// well-formed: the point is the arithmetic between two reports (expected vs. received interval).
+func genSrSandwich(t *rapid.T, tr trackInfo, st *rtpGenState) []Step {
+	payload := map[string]string{"avc": "6588840021", "hevc": "2601af08", "aac": "00100020aabbccdd"}[tr.codec]
+	if payload == "" {
+		payload = "d5d5d5d5"
+	}
+	ssrc := rapid.SampledFrom([]uint32{0x5a5a0001, 0x5a5a0001, 0, 0xffffffff}).Draw(t, "swSsrc")
+	var out []Step
+	rtp := func(seq uint16, kind string) {
+		r := RtpSpec{Ver: 2, PT: tr.pt, Seq: seq, TS: st.ts, SSRC: ssrc, Kind: kind, Payload: Blob{Hex: payload}, CutTo: -1}
+		out = append(out, Step{Frame: &Frame{Chan: tr.ch, Rtp: &r, DeclLen: -1}})
+	}
+	sr := func() {
+		x := RtcpSpec{Type: 200, SSRC: ssrc, Len: rapid.SampledFrom([]int{28, 28, 28, 52}).Draw(t, "swSrLen")}
+		if rapid.IntRange(0, 5).Draw(t, "swForeign") == 0 {
+			x.SSRC = ssrc + 1
+		}
+		out = append(out, Step{Frame: &Frame{Chan: tr.ch + 1, Rtcp: &x, DeclLen: -1}})
+	}
+	st.seq += 10
+	k := rapid.IntRange(1, 4).Draw(t, "swFirst")
+	for i := 0; i < k; i++ {
+		st.seq++
+		rtp(st.seq, "sandwich-new")
+	}
+	sr()
+	rounds := rapid.IntRange(1, 2).Draw(t, "swRounds")
+	for r := 0; r < rounds; r++ {
+		n := rapid.IntRange(0, 3).Draw(t, "swMiddle")
+		for i := 0; i < n; i++ {
+			switch rapid.SampledFrom([]string{"dup", "dup", "late", "late", "new"}).Draw(t, "swKind") {
+			case "dup":
+				rtp(st.seq, "sandwich-duplicate")
+			case "late":
+				rtp(st.seq-uint16(rapid.IntRange(1, 3).Draw(t, "swLateBy")), "sandwich-late")
+			default:
+				st.seq += uint16(rapid.SampledFrom([]int{1, 1, 2, 1000}).Draw(t, "swStep"))
+				rtp(st.seq, "sandwich-new")
+			}
+		}
+		sr()
+	}
+	return out
+}
+
+func sandwichLabels(steps []Step) []string {
+	var l []string
+	seen := false
+	for _, st := range steps {
+		if st.Frame != nil && st.Frame.Rtp != nil && strings.HasPrefix(st.Frame.Rtp.Kind, "sandwich-") {
+			seen = true
+			if st.Frame.Rtp.Kind != "sandwich-new" {
+				l = append(l, "rtcp:sr-sandwich-with-"+strings.TrimPrefix(st.Frame.Rtp.Kind, "sandwich-"))
+			}
+		}
+	}
+	if seen {
+		l = append(l, "rtcp:sr-sandwich")
+	}
+	return l
+}
+
 func genRtspCase(t *rapid.T) RtspCase {
 	var c RtspCase
 	c.Stage = rapid.SampledFrom([]string{"none", "options", "announced", "setup", "recording", "recording", "recording", "recording", "described", "subsetup", "playing", "playing"}).Draw(t, "stage")
@@ -931,6 +996,15 @@ func genRtspCase(t *rapid.T) RtspCase {
 		}
 		at := rapid.IntRange(0, len(c.Steps)).Draw(t, "burstAt")
 		c.Steps = append(c.Steps[:at:at], append(burst, c.Steps[at:]...)...)
+	}
+	if trs := c.tracks(); !c.subscriberSide() && c.Stage != "none" && c.Stage != "options" && len(trs) > 0 && rapid.IntRange(0, 3).Draw(t, "srSandwich") == 0 {
+		sw := genSrSandwich(t, rapid.SampledFrom(trs).Draw(t, "swTrack"), st)
+		at := rapid.IntRange(0, len(c.Steps)).Draw(t, "swAt")
+		// requests before the sandwich may end the session: mostly put it first
+		if rapid.IntRange(0, 2).Draw(t, "swFirstInTail") > 0 {
+			at = 0
+		}
+		c.Steps = append(c.Steps[:at:at], append(sw, c.Steps[at:]...)...)
 	}
 	if !c.subscriberSide() && c.Stage != "none" && c.Stage != "options" && rapid.IntRange(0, 7).Draw(t, "flood") == 0 {
 		f := &RtspFlood{Track: rapid.IntRange(0, 1).Draw(t, "floodTrack")}
@@ -1340,6 +1414,7 @@ func classifyRtsp(c RtspCase) (bool, []string) {
 	}
 	sl, hostile := c.stepLabels()
 	labels = append(labels, sl...)
+	labels = append(labels, sandwichLabels(c.Steps)...)
 	if f := c.Flood; f != nil {
 		hostile = true
 		switch {
